@@ -26,6 +26,7 @@ type sessOp struct {
 	Op        string `json:"op"`
 	ID        int    `json:"id,omitempty"`
 	V5        bool   `json:"v5,omitempty"`
+	V31       bool   `json:"v31,omitempty"` // connect, not V5: the client speaks MQTT 3.1 (protocol level 3), not 3.1.1
 	Clean     bool   `json:"clean,omitempty"`
 	Expiry    int64  `json:"expiry,omitempty"` // -1 absent
 	WillDelay int    `json:"will,omitempty"`   // -2 no will, -1 will without delay property, >=0 delay seconds
@@ -796,6 +797,8 @@ func (r *sessRun) connectOpts(k int, op sessOp) (int, ConnectOpts, string) {
 	ver := mqttp.ProtocolV311
 	if op.V5 {
 		ver = mqttp.ProtocolV50
+	} else if op.V31 {
+		ver = mqttp.ProtocolV31
 	}
 	o := ConnectOpts{ID: fmt.Sprintf("s%d", op.ID), Ver: ver, Clean: op.Clean}
 	if op.V5 && op.Expiry >= 0 {
